@@ -31,6 +31,7 @@ func init() {
 		"vunchanged":     hVunchanged,
 		"vguard":         hVguard,
 		"vunguard":       hVunguard,
+		"vMutexFree":     hVMutexFree,
 		"vspawned":       hVspawned,
 		"vrunSpawned":    hVrunSpawned,
 		"vPathErr":       hVPathErr,
@@ -528,4 +529,12 @@ func hNondetASCII(c *Ctx, st *State, fn *ssa.Function, a []Value) (*State, Value
 		s.b[i] = c.tt.Concat(c.tt.Const(1, 0), c.mkVar(fmt.Sprintf("%s[%d]", name, i), 7))
 	}
 	return st, s
+}
+
+func hVMutexFree(c *Ctx, st *State, fn *ssa.Function, a []Value) (*State, Value) {
+	p := a[0].(*Ptr)
+	c.guardOff++
+	s := c.mutexState(st, p)
+	c.guardOff--
+	return st, c.tt.Eq(s, c.tt.Const(32, 0))
 }
